@@ -428,6 +428,26 @@ func instrument(path, dir string, stubs map[string]string) ([]byte, bool) {
 		return outl
 	}
 
+	if features["maprange"] {
+		ast.Inspect(f, func(n ast.Node) bool {
+			c, ok := n.(*ast.CallExpr)
+			if !ok {
+				return true
+			}
+			se, ok := c.Fun.(*ast.SelectorExpr)
+			if !ok {
+				return true
+			}
+			id, ok := se.X.(*ast.Ident)
+			if !ok || id.Name != "maps" || (se.Sel.Name != "Keys" && se.Sel.Name != "Values") || len(c.Args) != 1 {
+				return true
+			}
+			c.Fun = sel("Map" + se.Sel.Name)
+			c.Args = []ast.Expr{lit(dir + "/" + pos(c)), c.Args[0]}
+			changed = true
+			return true
+		})
+	}
 	ast.Inspect(f, func(n ast.Node) bool {
 		switch v := n.(type) {
 		case *ast.BlockStmt:
@@ -449,6 +469,24 @@ func instrument(path, dir string, stubs map[string]string) ([]byte, bool) {
 
 	// single-statement bodies that are not in a block list (if x {go f()} is a block, fine)
 
+	if features["maprange"] {
+		used := false
+		ast.Inspect(f, func(n ast.Node) bool {
+			if se, ok := n.(*ast.SelectorExpr); ok {
+				if id, ok := se.X.(*ast.Ident); ok && id.Name == "maps" {
+					used = true
+				}
+			}
+			return true
+		})
+		if !used {
+			for _, imp := range f.Imports {
+				if imp.Path.Value == `"maps"` && imp.Name == nil {
+					imp.Name = ast.NewIdent("_")
+				}
+			}
+		}
+	}
 	if needSched {
 		spec := &ast.ImportSpec{Name: ast.NewIdent("vsched"), Path: &ast.BasicLit{Kind: token.STRING, Value: strconv.Quote(base + "vsched")}}
 		added := false
@@ -501,10 +539,19 @@ func rewriteMapRange(v *ast.RangeStmt, label string, sel func(string) ast.Expr) 
 			}
 		}
 	}
+	// entries deleted during the iteration are skipped, like in a native range
+	counter++
+	okv := ast.NewIdent(fmt.Sprintf("vok%d", counter))
+	counter++
+	valv := ast.NewIdent(fmt.Sprintf("vval%d", counter))
+	pre = append([]ast.Stmt{
+		&ast.AssignStmt{Lhs: []ast.Expr{valv, okv}, Tok: token.DEFINE, Rhs: []ast.Expr{&ast.IndexExpr{X: mv, Index: kv}}},
+		&ast.AssignStmt{Lhs: []ast.Expr{ast.NewIdent("_")}, Tok: token.ASSIGN, Rhs: []ast.Expr{valv}},
+		&ast.IfStmt{Cond: &ast.UnaryExpr{Op: token.NOT, X: okv}, Body: &ast.BlockStmt{List: []ast.Stmt{&ast.BranchStmt{Tok: token.CONTINUE}}}},
+	}, pre...)
 	if v.Value != nil {
 		if id, ok := v.Value.(*ast.Ident); !ok || id.Name != "_" {
-			pre = append(pre, &ast.AssignStmt{Lhs: []ast.Expr{v.Value}, Tok: tok,
-				Rhs: []ast.Expr{&ast.IndexExpr{X: mv, Index: kv}}})
+			pre = append(pre, &ast.AssignStmt{Lhs: []ast.Expr{v.Value}, Tok: tok, Rhs: []ast.Expr{valv}})
 			if tok == token.DEFINE {
 				pre = append(pre, &ast.AssignStmt{Lhs: []ast.Expr{ast.NewIdent("_")}, Tok: token.ASSIGN, Rhs: []ast.Expr{v.Value}})
 			}
